@@ -97,8 +97,12 @@ def make_script(c):
     if "state" in c:
         system = system.copy()
         system.state = UnitArray([float(x) for x in c["state"]], "molecule")
+    if c.get("ts_unit"):        # the whole list in one foreign unit (the default t_max is then in that unit too)
+        ts = UnitArray([float(x) for x in c["ts"]], c["ts_unit"])
+    else:
+        ts = [strengths.UnitValue(x) if isinstance(x, str) else x for x in c["ts"]]
     kw = dict(system=system,
-              t_sample=[strengths.UnitValue(x) if isinstance(x, str) else x for x in c["ts"]], time_step=c["dt"],
+              t_sample=ts, time_step=c["dt"],
               sampling_policy=c["policy"], sampling_interval=c.get("interval", 1),
               rng_seed=c.get("seed", 1), units_system=usys)
     if c.get("tmax", "default") != "default":
